@@ -34,6 +34,14 @@ def shell_family(seed, n):
         if rnd.random() < 0.7:
             p["complete_shell"] = rnd.choice(["file", "dir", "file_mask"])
             p["mask"] = pe(rnd.choice(["*.rs", "o'k"]))
+        if i % 4 == 1:
+            # two positional alternatives, each with a shell completer of its own (same kind, different masks): both are
+            # requested for the same typed word
+            b1, b2 = D.posb("q1", "str"), D.posb("q2", "str")
+            b1["complete_shell"], b1["mask"] = "file_mask", pe("*.rs")
+            b2["complete_shell"], b2["mask"] = "file_mask", pe("*.toml")
+            fam.append(D.mkdef(f"sh{seed}_{i}", D.level(named[:2] + [D.altf("g9", "one", D.branch(b1), D.branch(b2))], D.NOTAIL), maxlen=1))
+            continue
         if i % 3 == 2:
             sub = D.level([D.sw("s0", "--deep", help=h())], D.postail(p))
             c = D.cmd(["run", "r2"], sub)
